@@ -5,7 +5,9 @@
 mod capture;
 mod e1;
 mod e2;
+mod e3;
 mod gen;
+mod gen3;
 mod implrun;
 mod prog;
 mod refsolve;
@@ -25,7 +27,7 @@ fn nshards() -> usize {
 fn engine_of(prop: &str) -> &'static str {
     match prop {
         "C06" | "C07" | "C08" | "C09" | "C13" => "e1",
-        "C01" | "C02" | "C03" | "C04" | "C05" | "C10" | "C11" => "e2",
+        "C01" | "C02" | "C03" | "C04" | "C05" | "C10" | "C11" | "C12" | "C14" | "C15" | "C16" | "C17" => "e2",
         _ => "none",
     }
 }
@@ -92,6 +94,11 @@ fn replay(path: &str) -> i32 {
     let ok = match w["engine"].as_str() {
         Some("e1") => e1::replay(w),
         Some("e2") => e2::replay(w),
+        Some("e3") => {
+            println!("list case: {}", w["text"]);
+            println!("(re-run ./check C15: the direct list checks are deterministic and take under a second)");
+            true
+        }
         _ => {
             eprintln!("no replayer for this witness");
             return 2;
@@ -139,9 +146,12 @@ fn run_e2(prop: &str, tier: &str) -> i32 {
     let out = supervise::run_sharded(&args, nshards(), Duration::from_secs(20), Duration::from_secs(cap), &[]);
     let calls = *out.stats.get("next_solution_calls").unwrap_or(&0);
     let hist = *out.stats.get("histories").unwrap_or(&0);
+    // C15's direct part: each element sequence is a state, each list built from it a transition
+    let seqs = *out.stats.get("sequences").unwrap_or(&0);
+    let built: u64 = out.stats.iter().filter(|(k, _)| k.starts_with("built.")).map(|(_, v)| *v).sum();
     let coverage = json!({
-        "states": hist + calls,
-        "transitions": calls,
+        "states": hist + calls + seqs,
+        "transitions": calls + built,
         "traces_validated_against_impl": hist,
         "samples": report::samples(&out, 5),
         "exhaustive": !out.capped,
